@@ -145,6 +145,8 @@ class Engine(object):
                     raise Undecided('nx.DiGraph with arguments')
                 return VOpaque(fresh('nxdg', Obj), 'nxdigraph')
             return VCallable(mk, 'nx.DiGraph')
+        if modname == 'dn' and attr in ('DynGraph', 'DynDiGraph'):
+            return VType(attr)
         if modname == 'dn' and ('function::' + attr) in self.funcs:
             # dn.<name>: the functional form defined in dynetx/classes/function.py (real source, inlined)
             return self.function_value('function::' + attr)
@@ -162,6 +164,8 @@ class Engine(object):
             return VCallable(BUILTINS[name], name)
         if name in ('nx', 'np', 'copy', 'dn', 'tqdm') and not (name == 'tqdm' and fr.modname == 'assortativity'):
             return VModule(name)
+        if name == 'count':
+            return VCallable(lambda i, a, k, f: VOpaque(fresh('counter', Obj), 'counter'), 'itertools.count')
         if name == 'chain':
             # itertools.chain(a, b, ...): the concatenation, kept as the list of its parts
             return VCallable(lambda i, a, k, f: VChain(list(a)), 'chain')
